@@ -47,7 +47,7 @@ def run(prog: Program, res: Result, tier: str) -> None:
             ("parse_header", "parser: HEADER_START required, keys read until HEADER_END, format from header_keys[key], 'str' keys via _read_string, numbers "
              "via struct.unpack(fmt, read(calcsize(fmt)))[0]; hdrlen = position after HEADER_END; datalen = filelen - hdrlen"),
             ("_read_string", "strings are <uint32 length><bytes>"),
-            ("encode_key", "encoder: <uint32 len><key>[<uint32 len><str> | pack(table format, value)]"),
+            ("encode_key", "encoder: <uint32 number of BYTES><key bytes>[<uint32 number of BYTES><str bytes> | pack(table format, value)]"),
             ("encode_header", "HEADER_START, every recognised key encoded with header_keys[key] in dict order, HEADER_END")):
         fn = prog.func(SIG, name)
         verdict, why = kernelspec.compare(fn, name)
@@ -373,10 +373,15 @@ def run(prog: Program, res: Result, tier: str) -> None:
 S = "sigpyproc/io/sigproc.py"
 H = "sigpyproc/header.py"
 MUTANTS = [
+    {"id": "c05-revert-F37", "file": "sigpyproc/io/sigproc.py", "expect": "C05.R1",
+     "old": "            + struct.pack(\"I\", len(value_bytes))\n", "new": "            + struct.pack(\"I\", len(value))\n"},
+    {"id": "c05-key-prefix-in-chars", "file": "sigpyproc/io/sigproc.py", "expect": "C05.R1",
+     "old": "    return struct.pack(\"I\", len(key_bytes)) + key_bytes + struct.pack(value_type, value)\n",
+     "new": "    return struct.pack(\"I\", len(key) + 1) + key_bytes + struct.pack(value_type, value)\n"},
     {"id": "c05-parse-prefix-i", "file": S, "expect": "C05.R1",
      "old": "    strlen = struct.unpack(\"I\", fp.read(struct.calcsize(\"I\")))[0]", "new": "    strlen = struct.unpack(\"i\", fp.read(struct.calcsize(\"i\")))[0]"},
     {"id": "c05-encode-fixed-d", "file": S, "expect": "C05.R1",
-     "old": "    return struct.pack(\"I\", len(key)) + key.encode() + struct.pack(value_type, value)", "new": "    return struct.pack(\"I\", len(key)) + key.encode() + struct.pack(\"d\", value)"},
+     "old": "    return struct.pack(\"I\", len(key_bytes)) + key_bytes + struct.pack(value_type, value)", "new": "    return struct.pack(\"I\", len(key_bytes)) + key_bytes + struct.pack(\"d\", value)"},
     {"id": "c05-drop-za-start", "file": H, "expect": "C05.R2",
      "old": "            \"za_start\": self.zenith.deg,\n", "new": ""},
     {"id": "c05-swap-az-za", "file": H, "expect": "C05.R2",
